@@ -491,6 +491,10 @@ type UpdateCfg struct {
 	ExtraTargets []string // attribute names that should be targeted often (index keys)
 	ExtraValues  map[string][]model.AV
 	IllTyped     int // percent of actions built to fail
+	// ListSiblings: in a twelfth of the cases the expression also removes one
+	// element of a list and sets a later element of the same list (positions of
+	// one expression all refer to the list as it was before the update)
+	ListSiblings bool
 }
 
 // Update draws an update expression over c.Item (nil item = absent).
@@ -561,6 +565,28 @@ func (c *ExprCtx) Update(t *rapid.T, cfg UpdateCfg) model.Update {
 		}
 		targets = append(targets, target.P)
 		by[kind] = append(by[kind], act)
+	}
+	if cfg.ListSiblings && rapid.IntRange(0, 11).Draw(t, "listSiblings") == 5 {
+		var lists []string
+		for _, nm := range sortedNames(c.Item) {
+			if v := c.Item[nm]; v.T == "L" && len(v.L) >= 3 && !isKey(nm) {
+				lists = append(lists, nm)
+			}
+		}
+		if len(lists) > 0 {
+			nm := rapid.SampledFrom(lists).Draw(t, "siblingList")
+			l := len(c.Item[nm].L)
+			i := rapid.IntRange(0, l-2).Draw(t, "removedPos")
+			j := rapid.IntRange(i+1, l-1).Draw(t, "setPos")
+			tok := c.NameTok(t, nm)
+			pr := model.Path{Elems: []model.PathElem{{Name: tok}, {Index: i, IsIndex: true}}}
+			ps := model.Path{Elems: []model.PathElem{{Name: tok}, {Index: j, IsIndex: true}}}
+			if !overlaps(pr) && !overlaps(ps) {
+				targets = append(targets, pr, ps)
+				by["REMOVE"] = append(by["REMOVE"], model.Action{Path: pr})
+				by["SET"] = append(by["SET"], model.Action{Path: ps, Value: c.Val(model.Str("sibling"))})
+			}
+		}
 	}
 	var u model.Update
 	order := []string{"SET", "REMOVE", "ADD", "DELETE"}
